@@ -3,15 +3,21 @@
    Only pinned statements; proofs are in Notified/Notified{Base,Tokio,Smol,Spec,Proofs}.v.
 
    Vocabulary (Notified/Notified.v): a scenario is a list of operations
-     Set_ v | Subscribe | Poll s | DropSub s | DropState | Notify v | DropNotifier | PollOnce
-   performed one after the other on one State, its subscriber streams and one Once pair;
+     Set_ h v | Get h | Subscribe h | Poll s | DropSub s | CloneH h | DropH h
+     | Notify v | DropNotifier | PollOnce
+   performed one after the other on one State reached through any number of handles (State is
+   Clone in both crates: a clone is another handle to the same channel with its own copy of the
+   value; handle 0 is State::new, CloneH h pushes handles[h].clone(), DropH h drops one handle),
+   its subscriber streams and one Once pair;
    `run I ops` is the list of their results in the model I (tokio_impl: broadcast::channel(1) +
    BroadcastStream + oneshot under zlink-tokio's adapters; smol_impl: async-broadcast with
    overflow / no await_active / inactive keeper + async-channel under zlink-smol's adapters);
    `trace I ops` pairs every operation with its result; `next I ops o` is the result of o when
    performed after ops; `received s tr` are the values handed to subscriber s, `sets_after s tr`
-   the values set since s subscribed. *)
-From ZV Require Import Notified.Notified Notified.NotifiedProofs.
+   the values set — through whichever handle — since s subscribed; `handle_live h tr` says that
+   handle h exists at the end of the history (it is handle 0 or came out of a clone, and was not
+   dropped).  The State "exists" while some handle is live. *)
+From ZV Require Import Notified.Notified Notified.NotifiedProofs Notified.NotifiedHandles.
 
 (* `next` is what the name says, so a statement about `next I ops o` for all ops speaks about
    every operation of every scenario, whatever preceded and whatever follows it. *)
@@ -28,17 +34,20 @@ Theorem C20_event_is_next :
 Proof. exact event_is_next. Qed.
 Print Assumptions C20_event_is_next.
 
-(* For EVERY list of operations (any interleaving, any number of sets, subscribers, drops,
-   one-shot operations in between) and every subscriber s, in both models:
+(* For EVERY list of operations (any interleaving, any number of sets through any handles,
+   subscribers, clones, drops, one-shot operations in between) and every subscriber s, in both
+   models:
    1. what s has received is, in order, a subsequence of the values set after it subscribed;
    2. every item it is handed carries continues = Some true;
-   3. it is told end-of-stream only after the State was dropped;
-   4. whenever a poll has nothing to hand out (Pending, or end after the drop) the last value s
-      received is the last value set since it subscribed (none received iff none set) ...
-   5. ... and that point is reached at the latest by the second of two consecutive polls, so
+   3. it is told end-of-stream only when ALL handles of the State are gone (dropping one of
+      several handles never ends a subscription) ...
+   4. ... and as long as a handle exists a poll with nothing to hand out says Pending;
+   5. whenever a poll has nothing to hand out (Pending, or end after the last drop) the last
+      value s received is the last value set since it subscribed (none received iff none set):
+      nothing buffered is lost when the State goes away ...
+   6. ... and that point is reached at the latest by the second of two consecutive polls, so
       polling until Pending ends with the latest value;
-   6. a poll finds the stream gone only if it was never created or was dropped;
-   7. set returns (with get() = the value) as long as the State exists;
+   7. a poll finds the stream gone only if it was never created or was dropped;
    8. no operation panics and no loop of the models runs out of fuel. *)
 Theorem C20_subsequence_latest :
   forall I : impl, I = tokio_impl \/ I = smol_impl ->
@@ -46,32 +55,75 @@ Theorem C20_subsequence_latest :
   let tr := trace I ops in
   sublist (received s tr) (sets_after s tr) /\
   (forall v c, next I ops (Poll s) = OItem v c -> c = CTrue) /\
-  (next I ops (Poll s) = OEnd -> In (DropState, ODone) tr) /\
+  (next I ops (Poll s) = OEnd -> forall h, handle_live h tr = false) /\
+  (next I ops (Poll s) = OPending -> exists h, handle_live h tr = true) /\
   (next I ops (Poll s) = OPending \/ next I ops (Poll s) = OEnd ->
    last_opt (received s tr) = last_opt (sets_after s tr)) /\
   match next I (ops ++ [Poll s]) (Poll s) with OItem _ _ => False | _ => True end /\
-  (next I ops (Poll s) = OGone -> ~ In (Subscribe, OSub s) tr \/ In (DropSub s, ODone) tr) /\
-  (forall v, next I ops (Set_ v) = OSet v \/
-             (next I ops (Set_ v) = OGone /\ In (DropState, ODone) tr)) /\
+  (next I ops (Poll s) = OGone ->
+   ~ (exists h, In (Subscribe h, OSub s) tr) \/ In (DropSub s, ODone) tr) /\
   (forall o, next I ops o <> OPanic /\ next I ops o <> OFuel).
 Proof. exact subsequence_latest_models. Qed.
 Print Assumptions C20_subsequence_latest.
 
 (* The convergence, spelled out: after ANY history, a subscriber that exists (created, not
-   dropped) reaches "nothing more to hand out" with at most two polls — Pending while the State
-   exists, end only after it was dropped — and at that point the last value it has received is
-   the last value set since it subscribed (nothing received iff nothing was set). *)
+   dropped) reaches "nothing more to hand out" with at most two polls — Pending while a handle
+   of the State exists, end only when all are gone — and at that point the last value it has
+   received is the last value set since it subscribed (nothing received iff nothing was set). *)
 Theorem C20_converges :
   forall I : impl, I = tokio_impl \/ I = smol_impl ->
   forall (ops : list op) (s : nat),
-  In (Subscribe, OSub s) (trace I ops) -> ~ In (DropSub s, ODone) (trace I ops) ->
+  (exists h, In (Subscribe h, OSub s) (trace I ops)) -> ~ In (DropSub s, ODone) (trace I ops) ->
   exists o1 o2,
     run I (ops ++ [Poll s; Poll s]) = run I ops ++ [o1; o2] /\
-    (o2 = OPending \/ (o2 = OEnd /\ In (DropState, ODone) (trace I ops))) /\
+    ((o2 = OPending /\ exists h, handle_live h (trace I ops) = true) \/
+     (o2 = OEnd /\ forall h, handle_live h (trace I ops) = false)) /\
     last_opt (received s (trace I (ops ++ [Poll s; Poll s]))) =
     last_opt (sets_after s (trace I ops)).
 Proof. exact converges_models. Qed.
 Print Assumptions C20_converges.
+
+(* Handles.  An operation through handle h (set, get, stream, clone, drop) finds it gone exactly
+   when h does not exist; through a live handle set returns (get() = the value afterwards) and
+   get returns this handle's own copy of the value (hvals: the last value set through it, or
+   what its original held when it was cloned). *)
+Theorem C20_handles :
+  forall I : impl, I = tokio_impl \/ I = smol_impl ->
+  forall (ops : list op) (h : nat),
+  let tr := trace I ops in
+  (forall o, handle_of o = Some h -> (next I ops o = OGone <-> handle_live h tr = false)) /\
+  (handle_live h tr = true ->
+   (forall v, next I ops (Set_ h v) = OSet v) /\
+   (exists g, nth_error (hvals tr) h = Some g /\ next I ops (Get h) = OGet g)).
+Proof. exact handles_models. Qed.
+Print Assumptions C20_handles.
+
+(* Operations through any live handle are indistinguishable (for EVERY channel implementation
+   under the scenario machine, so in particular for both models): after any history, setting v
+   through h or through h' gives the same results of all later operations except what get()
+   returns (`view`), whatever follows; subscribing through h or h' gives the same results of
+   everything. *)
+Theorem C20_any_handle :
+  forall (I : impl) (ops : list op) (h h' : nat) (v : N) (rest : list op),
+  next I ops (Get h) <> OGone -> next I ops (Get h') <> OGone ->
+  view (trace I (ops ++ Set_ h v :: rest)) = view (trace I (ops ++ Set_ h' v :: rest)) /\
+  run I (ops ++ Subscribe h :: rest) = run I (ops ++ Subscribe h' :: rest).
+Proof. exact any_handle. Qed.
+Print Assumptions C20_any_handle.
+
+(* Dropping a handle while another one exists is a no-op for everybody else: whatever follows
+   (operations that neither use the dropped handle nor drop further handles) has exactly the
+   results it would have had without the drop — subscribers stay subscribed, later sets are
+   delivered, later stream() calls work. *)
+Theorem C20_drop_nonlast :
+  forall I : impl, I = tokio_impl \/ I = smol_impl ->
+  forall (ops : list op) (h h' : nat) (rest : list op), h <> h' ->
+  handle_live h (trace I ops) = true -> handle_live h' (trace I ops) = true ->
+  (forall o, In o rest -> spares h o) ->
+  exists outs, run I (ops ++ rest) = run I ops ++ outs /\
+               run I (ops ++ DropH h :: rest) = run I ops ++ ODone :: outs.
+Proof. exact drop_nonlast. Qed.
+Print Assumptions C20_drop_nonlast.
 
 (* One-shot: for every operation list split at the first use of the notifier (pre contains no
    Notify / DropNotifier; anything else may be interleaved anywhere): the one-shot stream is
@@ -105,22 +157,26 @@ Theorem C20_latest_value_cell :
 Proof. exact latest_value_cell. Qed.
 Print Assumptions C20_latest_value_cell.
 
-(* Non-vacuity: a scenario with two subscribers created at different points, a lagging one
-   (two sets between polls: Lagged / Overflowed is skipped), a dropped one, the State dropped
-   with a value still unread, and the one-shot used in between. *)
+(* Non-vacuity: a scenario with two handles and two subscribers created at different points and
+   through different handles, a lagging subscriber (two sets between polls: Lagged / Overflowed
+   is skipped), a clone dropped while the original lives (nothing ends), a dropped subscriber,
+   the last handle dropped with a value still unread (delivered, then end), and the one-shot
+   used in between. *)
 Example C20_nonvacuous :
-  let ops := [Set_ 1; Subscribe; Poll 0; Set_ 2; Subscribe; Set_ 3; Set_ 4; PollOnce; Poll 0;
-              Poll 0; Notify 9; Poll 1; DropSub 1; Set_ 5; PollOnce; DropState; Poll 0; Poll 0;
-              PollOnce; Poll 1]%N in
+  let ops := [Set_ 0 1; Subscribe 0; Poll 0; CloneH 0; Set_ 1 2; Subscribe 1; Set_ 0 3; Set_ 1 4;
+              PollOnce; Poll 0; Poll 0; Get 0; Get 1; DropH 1; Poll 0; Notify 9; Poll 1; DropSub 1;
+              Set_ 0 5; Set_ 1 6; PollOnce; DropH 0; Poll 0; Poll 0; PollOnce; Poll 1; Subscribe 0]%N in
   run tokio_impl ops =
-    [OSet 1; OSub 0; OPending; OSet 2; OSub 1; OSet 3; OSet 4; OPending; OItem 4 CTrue;
-     OPending; ODone; OItem 4 CTrue; ODone; OSet 5; OItem 9 CFalse; ODone; OItem 5 CTrue; OEnd;
-     OEnd; OGone]%N /\
+    [OSet 1; OSub 0; OPending; OHandle 1; OSet 2; OSub 1; OSet 3; OSet 4; OPending; OItem 4 CTrue;
+     OPending; OGet 3; OGet 4; ODone; OPending; ODone; OItem 4 CTrue; ODone; OSet 5; OGone;
+     OItem 9 CFalse; ODone; OItem 5 CTrue; OEnd; OEnd; OGone; OGone]%N /\
   run smol_impl ops = run tokio_impl ops /\
   received 0 (trace tokio_impl ops) = [4; 5]%N /\
   sets_after 0 (trace tokio_impl ops) = [2; 3; 4; 5]%N /\
   sets_after 1 (trace tokio_impl ops) = [3; 4; 5]%N /\
-  unresolved (firstn 10 ops).
+  handle_live 0 (trace tokio_impl (firstn 14 ops)) = true /\
+  handle_live 1 (trace tokio_impl (firstn 14 ops)) = false /\
+  unresolved (firstn 15 ops).
 Proof.
   cbv zeta. repeat split; try (vm_compute; reflexivity).
   intros o H. cbn in H. repeat (destruct H as [<-|H]; [exact I|]). destruct H.
